@@ -420,6 +420,19 @@ pub fn generate(seed: u64, n: usize, thorough: bool, corpus: Option<&str>) -> Ve
             progs.push(("string-plus-identifier".into(), format!("min 1\ns.t.\n    x >= len({} + 1)\nwhere\n    let {} = \"ö\"\ndefine\n    x as Real\n", id, id), format!("{} + 1", id)));
             progs.push(("comment-before".into(), format!("min 1\ns.t.\n    /* {} ü */ x <= \"a\"\ndefine\n    x as Real\n", id), "x <= \"a\"".to_string()));
         }
+        // frames LONGER than 120 bytes (a function call quoted with its comment / string argument) with multi-byte characters
+        // around byte 120, at 0, 1, 2, 3 bytes of ASCII padding: the frame text of the trace may be shortened, never cut inside a character
+        for ch in ["≤", "é", "😀", "日"] {
+            for pad in 0..4 {
+                let filler: String = std::iter::repeat(ch).take(80).collect();
+                let padding = "a".repeat(pad);
+                progs.push(("long-frame-comment".into(), format!("min 1\ns.t.\n    x + len(3 /* {}{} */) >= 1\ndefine\n    x as Real\n", padding, filler), "len(3".to_string()));
+                progs.push(("long-frame-string".into(), format!("min 1\ns.t.\n    x + len(\"{}{}\") >= 1\ndefine\n    x as Real\n", padding, filler), "len(".to_string()));
+                progs.push(("long-frame-unknown-fn".into(), format!("min 1\ns.t.\n    x >= nope(1, \"{}{}\", 2)\ndefine\n    x as Real\n", padding, filler), "nope(1".to_string()));
+                progs.push(("long-frame-transform".into(), format!("min 1\ns.t.\n    x >= A[7 /* {}{} */]\nwhere\n    let A = [1]\ndefine\n    x as Real\n", padding, filler), "A[7".to_string()));
+                progs.push(("long-frame-constraint".into(), format!("min 1\ns.t.\n    x /* {}{} */ <= \"s\"\ndefine\n    x as Real\n", padding, filler), "x /*".to_string()));
+            }
+        }
         for (tag, src, expect) in progs {
             let src = clamp(src);
             let mut c = Case::default();
@@ -484,6 +497,22 @@ pub fn generate(seed: u64, n: usize, thorough: bool, corpus: Option<&str>) -> Ve
             progs.push(format!("min x + y\ns.t.\n    x + abs{{z}} <= y - {}\n    y + abs{{z}} <= x - {}\ndefine\n    x, y as Real(MinusInfinity, {})\n    z as Real(-{}, {})\n", k, k, 10 * k, k, k));
         }
         for (k, src) in progs.into_iter().enumerate() { cases.push(run(src, vec!["stream:non-affine-bound-cycles".into(), format!("non-affine-bound-cycles:{}", k)], &mut pool)); }
+    }
+    // ---- declared integer ranges with BOTH bounds near opposite ends of the i64 range (their difference does not fit i64), also
+    //      through constants and in quantified declarations: TooLarge / Other, never a panic - deterministic
+    {
+        let los = ["(0 - 9223372036854775807)", "(0 - 9223372036854775807 - 1)", "(0 - 4611686018427387905)", "(0 - 2147483649)", "(0 - 2)", "lo"];
+        let his = ["9223372036854775807", "9223372036854775806", "4611686018427387905", "2147483648", "1", "hi"];
+        let mut k = 0usize;
+        for lo in los.iter() { for hi in his.iter() {
+            let src = format!("min 1\ns.t.\n    x >= 0\nwhere\n    let lo = 0 - 9223372036854775807\n    let hi = 9223372036854775807\ndefine\n    x as IntegerRange({}, {})\n", lo, hi);
+            cases.push(run(src, vec!["stream:declared-range-extremes".into(), format!("declared-range-extremes:{}", k)], &mut pool)); k += 1;
+        } }
+        for src in ["min 1\ns.t.\n    x_0 >= 0\nwhere\n    let hi = 9223372036854775807\ndefine\n    x_i as IntegerRange(0 - hi, hi) for i in 0..2\n",
+                    "min 1\ns.t.\n    x >= 0\ndefine\n    x as IntegerRange(9223372036854775807, 0 - 9223372036854775807)\n",
+                    "min 1\ns.t.\n    x >= 0\ndefine\n    x as IntegerRange(0 - 9223372036854775807, 0 - 9223372036854775807)\n"] {
+            cases.push(run(src.to_string(), vec!["stream:declared-range-extremes".into(), format!("declared-range-extremes:{}", k)], &mut pool)); k += 1;
+        }
     }
     // ---- tableau start: standard forms with at least as many private positive columns as rows that do NOT cover every row
     //      (one `<=` row owning several otherwise unused unbounded variables, next to equality / pinned rows owning none):
